@@ -301,6 +301,24 @@ func builtinMakeValidator(env *lisp.LEnv, args *lisp.LVal) *lisp.LVal {
 // finds the correct validation handler for the type
 func getHandler(env *lisp.LEnv, in *lisp.LVal, name string, constraints []*lisp.LVal) *lisp.LVal {
 	lType, _ := lisp.GoString(in)
+	// Refuse a non-constraint in the constraint list HERE, when the validator
+	// is built.  The type handlers below only wrap the list; left to
+	// applyConstraint the refusal arrives at validation time, where an
+	// inverting or swallowing caller reads it as "the inner constraint failed":
+	// (s:not (s:make-validator "u" s:int 5)) validated everything.  Same
+	// hazard, and same placement, as the checks in s:not and s:when.
+	for i, c := range constraints {
+		if i == 0 && lType == TaggedVal && c.Type == lisp.LString {
+			// The user-data type name of a tagged-value; resolved (and
+			// rejected if unknown) by builtinCheckTaggedVal.
+			continue
+		}
+		if !isValidator(c) {
+			return lisp.ErrorConditionf(BadArgs,
+				"Value is not a schema constraint: %v. Constraints must be built by the s package (s:int, s:has-key, s:gt, ...) or by libschema.NewValidator; an ordinary function cannot be used as one.",
+				c)
+		}
+	}
 	var res *lisp.LVal
 	switch lType {
 	case String:
